@@ -1119,3 +1119,106 @@ func allPathsReturn(b *ast.BlockStmt) bool {
 	}
 	return false
 }
+
+// E4ValueOnError: a pointer result is not used on the path where its call reported an error.
+func E4ValueOnError(c *core.Ctx, r *core.Report) {
+	r.Rule("E4.value-on-error", "in the SVG importer (svg.go): after `v, err := f(…)` with v of pointer type, the statement that tests `err != nil` leaves the enclosing statement list (return, break, continue) before v is used, or v is not used afterwards. ParseSVGPath returns a nil path together with its error; drawing it dereferences nil, so a document with bad path data made ParseSVG panic instead of returning the error")
+	p := c.MustPkg("")
+	info := p.TypesInfo
+	n := 0
+	for _, fd := range core.AllFuncDecls(p) {
+		if fd.Body == nil || !strings.HasSuffix(c.Fset.Position(fd.Pos()).Filename, "/svg.go") {
+			continue
+		}
+		fname := "canvas." + core.FuncName(fd)
+		ord := 0
+		var lists [][]ast.Stmt
+		ast.Inspect(fd.Body, func(m ast.Node) bool {
+			switch x := m.(type) {
+			case *ast.BlockStmt:
+				lists = append(lists, x.List)
+			case *ast.CaseClause:
+				lists = append(lists, x.Body)
+			}
+			return true
+		})
+		for _, list := range lists {
+			for i, st := range list {
+				as, ok := st.(*ast.AssignStmt)
+				if !ok || len(as.Lhs) != 2 || len(as.Rhs) != 1 {
+					continue
+				}
+				if _, isCall := core.Unparen(as.Rhs[0]).(*ast.CallExpr); !isCall {
+					continue
+				}
+				vid, ok1 := as.Lhs[0].(*ast.Ident)
+				eid, ok2 := as.Lhs[1].(*ast.Ident)
+				if !ok1 || !ok2 || vid.Name == "_" || eid.Name == "_" {
+					continue
+				}
+				v, e := core.ObjOf(info, vid), core.ObjOf(info, eid)
+				if v == nil || e == nil {
+					continue
+				}
+				if _, isPtr := v.Type().Underlying().(*types.Pointer); !isPtr {
+					continue
+				}
+				if nt, ok := e.Type().(*types.Named); !ok || nt.Obj().Name() != "error" {
+					continue
+				}
+				n++
+				ord++
+				key := fmt.Sprintf("%s|pointer result #%d not used on the error path", fname, ord)
+				// the error test among the following statements
+				leaves := false
+				tested := false
+				usedAfter := false
+				for _, later := range list[i+1:] {
+					if is, ok := later.(*ast.IfStmt); ok && !tested {
+						mentionsErr := false
+						ast.Inspect(is.Cond, func(k ast.Node) bool {
+							if id, ok := k.(*ast.Ident); ok && core.ObjOf(info, id) == e {
+								mentionsErr = true
+							}
+							return true
+						})
+						if mentionsErr {
+							tested = true
+							// the condition must be exactly err != nil for the leave to cover every error
+							exact := false
+							if be, ok := core.Unparen(is.Cond).(*ast.BinaryExpr); ok && be.Op == token.NEQ {
+								if id, ok := core.Unparen(be.X).(*ast.Ident); ok && core.ObjOf(info, id) == e {
+									exact = true
+								}
+							}
+							if exact && len(is.Body.List) > 0 {
+								switch last := is.Body.List[len(is.Body.List)-1].(type) {
+								case *ast.ReturnStmt:
+									leaves = true
+								case *ast.BranchStmt:
+									if last.Tok == token.BREAK || last.Tok == token.CONTINUE {
+										leaves = true
+									}
+								}
+							}
+							continue
+						}
+					}
+					ast.Inspect(later, func(k ast.Node) bool {
+						if id, ok := k.(*ast.Ident); ok && core.ObjOf(info, id) == v {
+							usedAfter = true
+						}
+						return true
+					})
+				}
+				if !usedAfter || leaves {
+					r.OK("E4.value-on-error", key, c.Pos(as.Pos()), "")
+				} else {
+					r.Fail("E4.value-on-error", key, c.Pos(as.Pos()), fmt.Sprintf("`%s` may be nil when `%s` is not: the error is recorded but the statement list goes on to use `%s`", vid.Name, eid.Name, vid.Name))
+				}
+			}
+		}
+	}
+	r.Count("E4.pointer-results-with-error", n)
+	r.Floor("E4.pointer-results-with-error", 1)
+}
